@@ -26,8 +26,18 @@ func cfgCopy() M {
 }
 
 func randCode(r *rand.Rand, cfg M) uint64 {
-	if r.Intn(4) == 0 {
+	switch r.Intn(8) {
+	case 0, 1:
 		cfg["multihashAlgorithms"] = []int{19}
+		cfg["maxOperationHashLength"] = 150
+		return 19
+	case 2:
+		// both algorithms configured; the first one is the one suffixes are computed with
+		cfg["multihashAlgorithms"] = []int{18, 19}
+		cfg["maxOperationHashLength"] = 150
+		return 18
+	case 3:
+		cfg["multihashAlgorithms"] = []int{19, 18}
 		cfg["maxOperationHashLength"] = 150
 		return 19
 	}
